@@ -147,7 +147,7 @@ def run_session(scr, texts, histories, share_parser=True, hashseed="0", pure=Fal
 
 def check(prop, tier, replay=None):
     run = Run("C12", tier)
-    run.cov["rule"] = ("every call history of Session.tla up to length 4 (quick: a seeded sample; thorough: all, plus length 5 sample) over three accepted "
+    run.cov["rule"] = ("every call history of Session.tla up to length 4 (quick: a seeded sample of 480; thorough: a seeded sample of 6 000 of the 28 701, plus 1 500 of length 5) over three accepted "
                        "texts (nested DAG with dated containers and alternatives; limits + two scenarios; the same tasks with the scenario value written on the parent scenario) and one rejected text; calls: parse, parse(schedule=False), "
                        "project.schedule() (also repeated), report generation (JSON + CSV), the CLI path run_scriptplan; all histories of a runner "
                        "share one interpreter; repeated under PYTHONHASHSEED 0 / 1 / 12345 and with the extensions blocked; every observation "
@@ -170,7 +170,9 @@ def check(prop, tier, replay=None):
     else:
         hs5, res5 = enumerate_histories("Session5.cfg")
         run.add_tlc(res5)
-        hs = must + hs + rng.sample(hs5, 6000)
+        # (all 28 701 histories of length 4 under every configuration took more than an hour and a half once the texts had grown:
+        #  a seeded sample, different for every VERIF_SEED)
+        hs = must + rng.sample(hs, min(len(hs), 6000)) + rng.sample(hs5, 1500)
     texts = make_texts(rng)
     if replay:
         d = json.load(open(replay))
